@@ -29,16 +29,20 @@ import (
 //	pc      - stable, but the label changes after K attempts (to pc2) and the counter must restart cleanly
 //	reshape - stable with Bounds for the first K attempts; from then on the first J points are consulted
 //	          unchanged and are followed by a tail of *different* points (new ids, bounds Bounds2[J:]) that may
-//	          be shorter or longer than the old tail (a non-prefix-stable change of the consulted choice points)
+//	          be shorter or longer than the old tail (a non-prefix-stable change of the consulted choice points),
+//	          or by no tail at all (the deeper points are simply not reached any more)
+//	tree    - an either at point 0 whose alternatives consult *different* chains of points (ids per arm, bounds
+//	          Arms[a]): every switch of alternative replaces the consulted tail
 type script struct {
-	Kind    string  `json:"kind"`
-	Bounds  []uint  `json:"bounds"`
-	On      [][]int `json:"on,omitempty"`
-	K       int     `json:"k,omitempty"`
-	J       int     `json:"j,omitempty"`
-	Bounds2 []uint  `json:"bounds2,omitempty"`
-	NewID   bool    `json:"new_id,omitempty"`
-	Seed    int64   `json:"seed"`
+	Kind    string   `json:"kind"`
+	Bounds  []uint   `json:"bounds"`
+	On      [][]int  `json:"on,omitempty"`
+	K       int      `json:"k,omitempty"`
+	J       int      `json:"j,omitempty"`
+	Bounds2 []uint   `json:"bounds2,omitempty"`
+	NewID   bool     `json:"new_id,omitempty"`
+	Arms    [][]uint `json:"arms,omitempty"` // tree: one chain of choice points (own ids) per alternative of the either at point 0
+	Seed    int64    `json:"seed"`
 }
 
 func prod(b []uint) int {
@@ -58,6 +62,9 @@ func runScript(s script) (start string, f *failure) {
 			f = &failure{"panic/" + s.Kind, fmt.Sprintf("counter panicked: %v", x)}
 		}
 	}()
+	if s.Kind == "tree" {
+		return runTree(s)
+	}
 	rand.Seed(s.Seed)
 	cnt := distsys.MakeRoundRobinFairnessCounter()
 	P := prod(s.Bounds)
@@ -155,6 +162,47 @@ func runScript(s script) (start string, f *failure) {
 		}
 	}
 	return start, nil
+}
+
+// runTree: point 0 is an either over len(Arms) alternatives; alternative a then consults the chain of points
+// A.l.arm<a>.<i> with bounds Arms[a].  One full exploration takes period = sum over arms of prod(Arms[a])
+// attempts; a window may start in the middle of an arm's block, so the stated bound is 2*period: every leaf
+// (alternative, combination) must be reached in every window of 2*period consecutive attempts.
+func runTree(s script) (start string, f *failure) {
+	rand.Seed(s.Seed)
+	cnt := distsys.MakeRoundRobinFairnessCounter()
+	period := 0
+	var want []string
+	for a, b := range s.Arms {
+		period += prod(b)
+		for _, c := range allCombos(b) {
+			want = append(want, fmt.Sprintf("%d|%s", a, c))
+		}
+	}
+	var hist []string
+	for at := 0; at < 6*period+1; at++ {
+		cnt.BeginCriticalSection("A.l")
+		n := uint(len(s.Arms))
+		arm := cnt.NextFairnessCounter("A.l.0", n)
+		if arm >= n {
+			return start, &failure{"range/tree", fmt.Sprintf("attempt %d: either answered %d of %d", at, arm, n)}
+		}
+		var leaf []string
+		for i, b := range s.Arms[arm] {
+			id := fmt.Sprintf("A.l.arm%d.%d", arm, i)
+			v := cnt.NextFairnessCounter(id, b)
+			if v >= b {
+				return start, &failure{"range/tree", fmt.Sprintf("attempt %d point %s: answer %d not below bound %d", at, id, v, b)}
+			}
+			leaf = append(leaf, fmt.Sprint(v))
+		}
+		l := fmt.Sprintf("%d|%s", arm, strings.Join(leaf, ","))
+		if at == 0 {
+			start = l
+		}
+		hist = append(hist, l)
+	}
+	return start, windows(hist, 0, 2*period, want, false, "tree")
 }
 
 func extra(s script) int {
@@ -324,6 +372,25 @@ func genScripts(thorough bool) []script {
 							out = append(out, script{Kind: "reshape", Bounds: b, Bounds2: b2, K: k, J: j})
 						}
 					}
+					if j >= 1 {
+						// pure truncation: the points from level j on are not reached any more
+						out = append(out, script{Kind: "reshape", Bounds: b, Bounds2: append([]uint{}, b[:j]...), K: k, J: j})
+					}
+				}
+			}
+		}
+	}
+	// tree: an either over 2 (thorough: also 3) alternatives with their own chains of 1..2 points
+	var chains [][]uint
+	for tl := 1; tl <= 2; tl++ {
+		chains = append(chains, tuples(vals[:3], tl)...)
+	}
+	for _, a0 := range chains {
+		for _, a1 := range chains {
+			out = append(out, script{Kind: "tree", Arms: [][]uint{a0, a1}})
+			if thorough && prod(a0) > 1 {
+				for _, a2 := range chains[:3] {
+					out = append(out, script{Kind: "tree", Arms: [][]uint{a0, a1, a2}})
 				}
 			}
 		}
@@ -435,8 +502,17 @@ func TestCheck(t *testing.T) {
 			if s.Kind == "nested" {
 				need = len(leaves(s))
 			}
+			maxSeed := int64(4000)
+			if s.Kind == "tree" {
+				// the counters of an arm are re-created (at fresh random values) on every switch of alternative:
+				// the whole run depends on the seed, not only on the first attempt; a fixed set of seeds is explored
+				need, maxSeed = 1<<30, 48
+				if env.Thorough() {
+					maxSeed = 400
+				}
+			}
 			seen := map[string]bool{}
-			for seed := int64(0); seed < 4000 && len(seen) < need; seed++ {
+			for seed := int64(0); seed < maxSeed && len(seen) < need; seed++ {
 				s.Seed = seed
 				start, f := runScript(s)
 				if f != nil {
@@ -447,18 +523,18 @@ func TestCheck(t *testing.T) {
 					seen[start] = true
 					continue
 				}
-				if !seen[start] {
+				if !seen[start] || s.Kind == "tree" {
 					seen[start] = true
 					evals++
 					byKind[s.Kind]++
-					outcomes[fmt.Sprintf("%s|%v|%v|%v|%d|%d|%s", s.Kind, s.Bounds, s.On, s.Bounds2, s.K, s.J, start)] = true
+					outcomes[fmt.Sprintf("%s|%v|%v|%v|%v|%d|%d|%s", s.Kind, s.Bounds, s.On, s.Bounds2, s.Arms, s.K, s.J, start)] = true
 					if len(samples) < 4 && prod(s.Bounds) > 3 && seed > 0 {
 						sc := s
 						samples = append(samples, map[string]any{"script": sc, "first_attempt": start})
 					}
 				}
 			}
-			if len(seen) < need {
+			if len(seen) < need && s.Kind != "tree" {
 				incomplete++
 			}
 			startsSeen += len(seen)
@@ -491,13 +567,13 @@ func TestCheck(t *testing.T) {
 		}
 		samples = append(samples, map[string]any{"generated": "NonDetExploration.ACoverage+ACoincidence", "attempts_per_label_signatures": len(genOutcomes)})
 		res.Coverage = map[string]any{
-			"evaluations":          evals,
-			"distinct_nontrivial":  len(outcomes) + len(genOutcomes),
-			"rule":                 "every script (stable / nested / bound-or-id change at level J after K attempts / label change after K attempts) over bounds {1,2,3}^d (thorough {1..4}^d, d<=4) x every start tuple of the real counter (found by enumerating math/rand seeds until all were produced); each evaluation is 3*prod(bounds)+1 attempts with every window of prod(bounds) attempts checked (nested: every leaf within every window of 2*prod(bounds)); distinct = distinct (script,start tuple) pairs plus distinct attempts-per-label signatures of the generated NonDetExploration archetypes",
-			"samples":              samples,
-			"scripts":              len(scripts),
-			"scripts_by_kind":      byKind,
-			"start_tuples_covered": startsSeen,
+			"evaluations":                         evals,
+			"distinct_nontrivial":                 len(outcomes) + len(genOutcomes),
+			"rule":                                "every script (stable / nested / bound-or-id change at level J after K attempts / label change after K attempts) over bounds {1,2,3}^d (thorough {1..4}^d, d<=4) x every start tuple of the real counter (found by enumerating math/rand seeds until all were produced); each evaluation is 3*prod(bounds)+1 attempts with every window of prod(bounds) attempts checked (nested: every leaf within every window of 2*prod(bounds)); distinct = distinct (script,start tuple) pairs plus distinct attempts-per-label signatures of the generated NonDetExploration archetypes",
+			"samples":                             samples,
+			"scripts":                             len(scripts),
+			"scripts_by_kind":                     byKind,
+			"start_tuples_covered":                startsSeen,
 			"scripts_with_uncovered_start_tuples": incomplete,
 			"generated_archetype_runs":            nGen,
 			"exhaustive":                          incomplete == 0,
